@@ -504,6 +504,47 @@ def multi_file(rng):
     return {"files": files, "entry": "main.scss", "tag": "multi-file"}
 
 
+LONG_TARGETS = [80, 120, 128, 200, 256, 1000, 4096]
+WIDE = {2: ["é", "ü", "ж"], 3: ["€", "日", "ก"], 4: ["😀", "𝒳", "🜂"]}
+
+
+def long_line_cases(rng, n):
+    """ONE long source line (about 80/120/128/200/256/1000/4096 bytes or random) filled with 2-, 3- or
+    4-byte characters after 0-3 bytes of ASCII shift, so that every byte offset near those lengths falls
+    inside a character for some case; the error sits before, inside or after the long run, on the first
+    or on a later line.  The renderer must show the whole line (tie: Display == model render)."""
+    out = []
+    k = 0
+    while len(out) < n:
+        T = LONG_TARGETS[k % len(LONG_TARGETS)] if k % 8 != 7 else rng.randrange(60, 3000)
+        w = [2, 3, 4][(k // len(LONG_TARGETS)) % 3] if rng.random() < 0.75 else 0
+        shift = (k // (3 * len(LONG_TARGETS))) % 4 if rng.random() < 0.8 else rng.randrange(0, 9)
+        k += 1
+        fill = "a" * shift
+        while len(fill.encode()) < T + rng.choice([0, 3, 9, 40]):
+            fill += rng.choice(WIDE[w] if w else WIDE[rng.choice([2, 3, 4])] + ["z"])
+        half = fill[: len(fill) // 2]
+        where = rng.randrange(7)
+        if where == 0:
+            line = f'@error "x{fill}";'
+        elif where == 1:
+            line = f'a {{ b: 1 + ; c: "{fill}"; }}'                    # error before the run
+        elif where == 2:
+            line = f'a {{ b: "{half}" + $u + "{fill}"; }}'              # inside
+        elif where == 3:
+            line = f'a {{ c: "{fill}"; b: 1 + }}'                      # after
+        elif where == 4:
+            line = f"/* {fill} */ a {{ b: $x }}"
+        elif where == 5:
+            line = f".{fill} {{ b: c(}}"
+        else:
+            line = f'@debug "{half}"; @error {half};'
+        pre = rng.choice(["", "", "// é\n", "\n\n", "x { y: z }\r\n"])
+        post = rng.choice(["", "\n", "\n/* € */\n"])
+        out.append({"src": pre + line + post, "tag": "long-line"})
+    return out
+
+
 def relex_cases(rng, n):
     """`SEL{b: c}` / `SEL {b: c}` with SEL ending in `[`: "Expected identifier." at the end of the
     re-lexed selector; the span is predicted by the model (`diag relex textdiff … idx=len`)."""
@@ -576,6 +617,7 @@ def gen_failing(ck, tier, cs):
     for _ in range(100 if quick else 2000):
         cases.append(multi_file(rng))
     cases += relex_cases(rng, 250 if quick else 5000)
+    cases += long_line_cases(rng, 340 if quick else 6000)
     return cases
 
 
@@ -753,6 +795,140 @@ def run_failing(ck, pool, cases, failing, ascii_every=1):
 
 
 # ----------------------------------------------------------------------------------------------
+# part C — direct-only: nothing but the Logger, whatever is compiled
+# ----------------------------------------------------------------------------------------------
+def std_text_of(logs):
+    return [(l["kind"], l["file"], l["line"], l["msg"]) for l in logs]
+
+
+def run_capture(ck, pool, items, failing, label):
+    """items: (key, job) — compiled loud and quiet with the collecting logger and, for every 3rd item,
+    with StdLogger.  Required: nothing on fd 1/2 with the collecting logger; under quiet no log events
+    and nothing on fd 1/2 with either logger; the same result and CSS whatever the logger/quiet; with
+    StdLogger stderr is exactly the StdLogger rendering of the events the collecting logger received."""
+    jobs, meta = [], []
+    for idx, (key, job) in enumerate(items):
+        jq = json.loads(json.dumps(job))
+        jq.setdefault("options", {})["quiet"] = True
+        js = [job, jq]
+        if idx % 3 == 0:
+            js += [std_job(job), std_job(jq)]
+        meta.append((key, job, len(jobs), len(js)))
+        jobs += js
+    answers = map_confirm(pool, jobs, 8, 30)
+    for key, job, off, nj in meta:
+        loud, quiet = answers[off], answers[off + 1]
+        problems = []
+        if any(a.get("status") in ("timeout", "abort") for a in answers[off:off + nj]):
+            ck.hist(label + ":timeout-or-abort")
+            continue
+        for a in answers[off:off + nj]:
+            if a.get("status") == "panic" and DIAG_PANIC.search(a.get("panic") or ""):
+                problems.append({"what": "panic in the diagnostics path", "panic": (a.get("panic") or "")[:300]})
+        if loud.get("captured"):
+            problems.append({"what": "library wrote to fd 1/2 although a custom Logger is installed",
+                             "captured": loud["captured"][:400]})
+        if quiet.get("captured"):
+            problems.append({"what": "library wrote to fd 1/2 under quiet (custom Logger)", "captured": quiet["captured"][:400]})
+        if quiet.get("logs"):
+            problems.append({"what": "events reached the Logger under quiet", "events": quiet["logs"][:5]})
+        if loud.get("status") == "ok" and quiet.get("status") == "ok" and loud.get("css") != quiet.get("css"):
+            problems.append({"what": "CSS differs between quiet and not quiet"})
+        if nj == 4:
+            s_loud, s_quiet = answers[off + 2], answers[off + 3]
+            if s_quiet.get("captured"):
+                problems.append({"what": "something was written to fd 1/2 under quiet (StdLogger)",
+                                 "captured": s_quiet["captured"][:400]})
+            if (s_loud.get("status"), s_loud.get("css")) != (loud.get("status"), loud.get("css")):
+                problems.append({"what": "result differs between StdLogger and custom logger"})
+            if loud.get("status") != "panic" and not expected_stderr_ok(std_text_of(loud.get("logs", [])), s_loud.get("captured", "")):
+                problems.append({"what": "with StdLogger, stderr is not exactly the StdLogger rendering of the logged events "
+                                         "(something else wrote to fd 1/2)",
+                                 "captured": s_loud.get("captured", "")[:600], "events": loud.get("logs", [])[:6]})
+        n_ev = len(loud.get("logs", []))
+        ck.count((label, key), n_ev > 0 or loud.get("status") == "ok")
+        ck.hist(f"{label}:status={loud.get('status')}")
+        ck.hist(f"{label}:events=" + ("0" if n_ev == 0 else "1+"))
+        if problems:
+            src = job.get("input") if "input" in job else json.dumps({"files": job.get("files"), "entry": job.get("entry")},
+                                                                     sort_keys=True, ensure_ascii=False)
+            failing.append({"source": src, "tag": label, "problems": problems, "size": len(src), "capture_job": job})
+
+
+def corpus_jobs(cs):
+    items = []
+    for c in cs:
+        o = {k: v for k, v in c["options"].items() if k in ("syntax", "style", "charset", "unicode")}
+        items.append((c["file"] + ":" + c["name"], compile_job(c["input"], **o)))
+    return items
+
+
+def construct_program(rng):
+    """Programs over constructs OUTSIDE the trace model (direct-only): @elseif / @else if chains, @each,
+    @while, @use/@forward, meta.load-css($with:), slash division, @import of css, global-function forms,
+    an indented-syntax dependency — each with @debug/@warn sprinkled in."""
+    n = lambda: rng.randrange(0, 4)
+    files = {}
+    uses, body = [], []
+    msg = lambda: rng.choice(['"s1"', "2", '"é"', "$a", "(1, 2)", "a b"])
+    for _ in range(rng.choice([2, 3, 4, 5])):
+        k = rng.randrange(13)
+        if k == 0:
+            body += [f"$a: {n()};", f"@if $a == 0 {{ @debug {msg()}; }} @elseif $a == 1 {{ @warn {msg()}; }} "
+                     f"@else if $a == 2 {{ @debug 3; }} @else {{ @warn {msg()}; }}"]
+        elif k == 1:
+            body += [f"$a: {n()};", f"@if $a > 1 {{\n  @warn {msg()};\n}}\n@elseif $a == 1 {{\n  @debug {msg()};\n}}"]
+        elif k == 2:
+            body += ["$a: 0;", f"@each $k, $v in (a: 1, b: 2, c: {n()}) {{ @debug $k; @warn $v; }}"]
+        elif k == 3:
+            body += [f"$i: 0; $a: 1;", f"@while $i < {n()} {{ @debug $i; $i: $i + 1; @warn {msg()}; }}"]
+        elif k == 4:
+            files["_lib.scss"] = f'$x: {n()};\n@mixin m {{ @warn "in lib"; }}\n@debug "loading lib";\n@function g($v) {{ @if $v == 1 {{ @return 1; }} @elseif $v == 2 {{ @return 2; }} @return 0; }}\n'
+            uses.append('@use "lib";')
+            body += ["@debug lib.$x;", "a { @include lib.m; b: lib.g(2); }"]
+        elif k == 5:
+            files["_fw.scss"] = '@forward "fwd";\n@warn "forwarding";\n'
+            files["_fwd.scss"] = f'$y: {n()};\n@debug $y;\n@mixin n {{ @debug "n"; }}\n'
+            uses.append('@use "fw" as *;')
+            body += ["@debug $y;", "b { @include n; }"]
+        elif k == 6:
+            files["_other.scss"] = f'$c: 0 !default;\n@debug $c;\nc {{ d: $c; }}\n'
+            uses.append('@use "sass:meta";')
+            body += [rng.choice(['a { @include meta.load-css("other", $with: (c: 1)); }', '@include meta.load-css("other");'])]
+        elif k == 7:
+            uses.append('@use "sass:math";')
+            body += [f"a {{ b: (10px / 2); c: math.div(4, 2); d: 6px / 3px; $z: 8 / {1 + n()}; e: $z; @debug $z; }}"]
+        elif k == 8:
+            files["plain.css"] = "p { q: r }\n"
+            body += [rng.choice(['@import "plain";', '@import "plain.css";', "@import url(foo.css);", '@import "x" screen;'])]
+        elif k == 9:
+            body += ['a { b: map-get((k: 1), k); c: str-index("abc", "b"); d: percentage(0.5); e: lighten(#000, 10%); '
+                     'f: call(get-function("abs"), -1); g: unquote("x"); h: nth(1 2, 1); @debug map-merge((a: 1), (b: 2)); }']
+        elif k == 10:
+            body += [f"@function f($x) {{ @if $x > 0 {{ @return 1; }} @elseif $x < 0 {{ @warn {msg() if False else 3}; @return -1; }} @return 0; }}",
+                     f"@debug f({n() - 2});"]
+        elif k == 11:
+            files["_ind.sass"] = f"$a: {n()}\n@if $a == 0\n  @debug 1\n@elseif $a == 1\n  @warn 2\n@else if $a == 2\n  @debug 3\n@else\n  @warn 4\n"
+            body += ['@import "ind";']
+        else:
+            body += [f"a {{ @debug &; &:hover {{ @warn {msg()}; }} @media screen {{ @debug 1; }} @at-root b {{ @warn 2; }} }}"]
+    if not any(l.startswith("$a:") for l in body):
+        body.insert(0, "$a: 1;")
+    else:
+        body.insert(0, "$a: 5;")
+    files["main.scss"] = "\n".join(dict.fromkeys(uses)) + ("\n" if uses else "") + "\n".join(body) + "\n"
+    return files
+
+
+def construct_jobs(rng, n):
+    items = []
+    for i in range(n):
+        files = construct_program(rng)
+        items.append((json.dumps(files, sort_keys=True), compile_job(files=files, entry="main.scss")))
+    return items
+
+
+# ----------------------------------------------------------------------------------------------
 def run(tier, seed):
     ck = Check("C19", tier, seed)
     ck.other_panics = {}
@@ -801,7 +977,11 @@ def run(tier, seed):
     for off in range(0, n_prog, 10000):
         run_logging(ck, pool, min(10000, n_prog - off), failing, first=(off == 0))
         log(f"[C19] logging programs: {min(off + 10000, n_prog)}/{n_prog} done, {len(failing)} failing")
-    ck.cov["phase_wall_s"]["logging programs"] = round(time.time() - t3, 1)
+    t4 = time.time()
+    ck.cov["phase_wall_s"]["logging programs"] = round(t4 - t3, 1)
+    run_capture(ck, pool, corpus_jobs(cs), failing, "golden-capture")
+    run_capture(ck, pool, construct_jobs(ck.rng, 600 if tier == "quick" else 12000), failing, "constructs-capture")
+    ck.cov["phase_wall_s"]["golden corpus + construct programs (capture/quiet, direct-only)"] = round(time.time() - t4, 1)
     log(f"[C19] phases: {ck.cov['phase_wall_s']}")
     if ck.aborts:
         ck.notes.append({"worker aborts, not judged here (C01)": ck.aborts})
